@@ -1,8 +1,11 @@
 import C4E.Drv.Minter
+import C4E.Drv.Distr
 open C4E
 
 structure World where
   minter : C4E.Drv.Minter.W := {}
+  distr : C4E.Drv.Distr.W := {}
+  halted : Bool := false
 deriving Inhabited
 
 def stepLine (w : World) (line : String) : World × String :=
@@ -12,9 +15,13 @@ def stepLine (w : World) (line : String) : World × String :=
   | "reset" :: _ => ({}, ".")
   | t :: _ =>
     if t.startsWith "#" then (w, ".")
+    else if w.halted then (w, "halted")
     else if t.startsWith "m." then
       let (m, out) := C4E.Drv.Minter.step w.minter toks
-      ({ w with minter := m }, out)
+      ({ w with minter := m, halted := out = "panic" && t = "m.block" }, out)
+    else if t.startsWith "d." then
+      let (d, out) := C4E.Drv.Distr.step w.distr toks
+      ({ w with distr := d, halted := out = "panic" && t = "d.bb" }, out)
     else (w, "bad-op")
 
 partial def loop (hin hout : IO.FS.Stream) (w : World) : IO Unit := do
